@@ -689,34 +689,63 @@ func (b *bitstream) readNsecs(length uint64) (int, bool, uint8, error) {
 		return 0, false, 0, err
 	}
 
-	nsec, err := d.ShiftL(9).trunc()
-	if err != nil || nsec < 0 || nsec > 999999999 {
+	invalid := func() (int, bool, uint8, error) {
 		msg := fmt.Sprintf("invalid timestamp fraction: %v", d)
 		return 0, false, 0, &SyntaxError{msg, b.pos}
 	}
 
-	nsec, err = d.ShiftL(9).round()
-	if err != nil {
-		msg := fmt.Sprintf("invalid timestamp fraction: %v", d)
-		return 0, false, 0, &SyntaxError{msg, b.pos}
+	coef, exp := d.CoEx()
+	if coef.Sign() < 0 {
+		return invalid()
 	}
 
-	var exponent uint8
-
-	// check if the scale is negative and coefficient is zero then set exponent value to 0
-	// otherwise set exponent value as per the scale value
-	if d.scale < 0 && nsec == 0 {
-		exponent = uint8(0)
-	} else {
-		exponent = uint8(d.scale)
+	// The number of fractional digits, capped at nanosecond precision.
+	digits := -int64(exp)
+	precision := uint8(0)
+	if digits > maxFractionalPrecision {
+		precision = maxFractionalPrecision
+	} else if digits > 0 {
+		precision = uint8(digits)
 	}
+
+	if coef.Sign() == 0 {
+		// A zero fraction; with a non-negative exponent it carries no digits at all.
+		return 0, false, precision, nil
+	}
+
+	// The fraction must be less than one: coef < 10^digits.
+	coefDigits := int64(len(coef.String()))
+	if digits <= 0 || coefDigits > digits {
+		return invalid()
+	}
+
+	if digits <= maxFractionalPrecision {
+		nsec := coef.Int64()
+		for i := digits; i < maxFractionalPrecision; i++ {
+			nsec *= 10
+		}
+		return int(nsec), false, precision, nil
+	}
+
+	// More digits than nanoseconds can hold: round half up to the nearest nanosecond.
+	shift := digits - maxFractionalPrecision
+	if shift > coefDigits {
+		// Less than a tenth of a nanosecond.
+		return 0, false, precision, nil
+	}
+	div := new(big.Int).Exp(big.NewInt(10), big.NewInt(shift), nil)
+	quo, rem := new(big.Int).QuoRem(coef, div, new(big.Int))
+	if rem.Lsh(rem, 1).Cmp(div) >= 0 {
+		quo.Add(quo, big.NewInt(1))
+	}
+	nsec := quo.Int64()
 
 	// Overflow to second.
 	if nsec == 1000000000 {
-		return 0, true, exponent, nil
+		return 0, true, precision, nil
 	}
 
-	return int(nsec), false, exponent, nil
+	return int(nsec), false, precision, nil
 }
 
 // ReadDecimal reads a decimal value of the given length: an exponent encoded as a
